@@ -22,6 +22,10 @@ def _ops_entry(pid, theorems, focus):
     )
 
 PROPS = {
+    "C09": _ops_entry("C09", ["C09_restart_transparent", "C09_final_completion_ends_attempt",
+                              "C09_multi_interruption_with_more_surfaces_refuted",
+                              "C09_multi_restart_with_queued_results_panics_refuted"],
+                      "EINTR/ECANCELED completions"),
     "C01": _ops_entry("C01", ["C01_inflight_implies_allocated", "C01_addresses_stable",
                               "C01_reachable_states_well_formed"], "drops and completions"),
     "C03": _ops_entry("C03", ["C03_readying_completion_wakes_latest_waker", "C03_queue_full_waiter_is_parked"],
